@@ -99,8 +99,9 @@ def dispatch? (op : String) (j : Json) : Option Json :=
         | .ok (.arr kvs) =>
           let r : Renaming := kvs.toList.filterMap (fun kv => match kv with
             | .arr #[.str a, .str b] => some (a, b) | _ => none)
-          let g' := renameDemes g r
-          Json.mkObj [("ok", ofValue g'.asdict), ("index", indexJ g')]
+          match renameDemesChecked g r with
+          | .error e => errJ e
+          | .ok g' => Json.mkObj [("ok", ofValue g'.asdict), ("index", indexJ g')]
         | _ => Json.mkObj [("fail", .str "names")])
     else if op = "isclose" then some <|
       withGraph j "a" (fun a => withGraph j "b" (fun b =>
